@@ -94,6 +94,17 @@ class UserAddNode(ActionGroup):
 
         pred, succ = self.tracks.get_track_neighbors(track_id, time)
 
+        # A node needs a position or pixels: refuse before any conflicting edge is
+        # removed (a non-forced upstream division is still reported first)
+        pos_key = tracks.features.position_key
+        pos_keys = pos_key if isinstance(pos_key, list) else [pos_key]
+        missing_pos = pixels is None and not all(key in attributes for key in pos_keys)
+        upstream_division = pred is not None and self.tracks.graph.out_degree(pred) == 2
+        if missing_pos and (force or not upstream_division):
+            raise InvalidActionError(
+                f"Cannot add node {node} without position or segmentation."
+            )
+
         # check if you are adding a node to a track that divided previously
         if pred is not None and self.tracks.graph.out_degree(pred) == 2:
             if not force:
